@@ -237,6 +237,16 @@ class ProvXMLSerializer(Serializer):
         # Remove all comments.
         for c in xml_doc.xpath("//comment()"):
             p = c.getparent()
+            if p is None:
+                # outside the document element
+                continue
+            # the text following it belongs to the enclosing element
+            if c.tail:
+                prev = c.getprevious()
+                if prev is not None:
+                    prev.tail = (prev.tail or "") + c.tail
+                else:
+                    p.text = (p.text or "") + c.tail
             p.remove(c)
 
         document = prov.model.ProvDocument()
